@@ -328,6 +328,88 @@ Proof.
   - destruct c; discriminate.
 Qed.
 
+(* ---------- async functions: asyncRunner = the spec generator machine driven by the settlements ---------- *)
+Definition star_free : Prop :=
+  forall b i lf, leaf_of (bstep b i) lf -> match lf with LYieldStar _ _ _ => False | _ => True end.
+Definition no_return (h : list (cmd V)) : Prop := Forall (fun c => match c with RReturn _ => False | _ => True end) h.
+
+Notation ar_run := (@ar_run V B It Ev tyerr bstep).
+
+Lemma run_cons {St} (step : St -> cmd V -> list Ev * St * result V) st c h :
+  run step st (c :: h) =
+  let '(l, st', o) := step st c in
+  match o with
+  | ODiverge => ([(l, o)], st')
+  | _ => let (os, stf) := run step st' h in ((l, o) :: os, stf)
+  end.
+Proof. reflexivity. Qed.
+
+Lemma ar_sim (Hsf : star_free) n : forall h (s : sobj) c,
+  no_return (c :: h) -> sdeleg s = None ->
+  (sstate s = SSuspendedYield \/ (sstate s = SSuspendedStart /\ exists v, c = RNext v)) ->
+  ar_run (sbody s)
+         (match sstate s, c with
+          | SSuspendedStart, _ => BStart
+          | _, RNext x => BNext x
+          | _, RThrow e => BThrow e
+          | _, RReturn x => BReturn x
+          end) h
+  = until_done (outs (run (s_call (S n)) s (c :: h))).
+Proof.
+  induction h as [|c' h IH]; intros s c Hnr Hd Hst.
+  - (* last call *)
+    assert (E : exists i, s_call (S n) s c = s_body (S n) (mkS SExecuting None (sbody s)) i /\
+                i = match sstate s, c with
+                    | SSuspendedStart, _ => BStart | _, RNext x => BNext x | _, RThrow e => BThrow e | _, RReturn x => BReturn x end).
+    { unfold Model.s_call, Model.s_call_with, Model.s_resume. rewrite Hd.
+      destruct Hst as [Hy|[Hs [v ->]]]; [rewrite Hy | rewrite Hs].
+      - destruct c; eexists; split; reflexivity.
+      - eexists; split; reflexivity. }
+    destruct E as (i & E & Ei). rewrite <- Ei. simpl. rewrite E. simpl.
+    destruct (run_tree s_reenter (bstep (sbody s) i)) as [l lf] eqn:Et.
+    change (run_tree (fun _ : cmd V => CErr tyerr) (bstep (sbody s) i)) with (run_tree s_reenter (bstep (sbody s) i)).
+    rewrite Et. pose proof (Hsf _ _ _ (run_tree_leaf_of _ _ _ _ Et)) as Hl.
+    destruct lf as [v w b'|src w b'|v b'|e b']; simpl; try contradiction; rewrite ?app_nil_r; reflexivity.
+  - assert (E : exists i, s_call (S n) s c = s_body (S n) (mkS SExecuting None (sbody s)) i /\
+                i = match sstate s, c with
+                    | SSuspendedStart, _ => BStart | _, RNext x => BNext x | _, RThrow e => BThrow e | _, RReturn x => BReturn x end).
+    { unfold Model.s_call, Model.s_call_with, Model.s_resume. rewrite Hd.
+      destruct Hst as [Hy|[Hs [v ->]]]; [rewrite Hy | rewrite Hs].
+      - destruct c; eexists; split; reflexivity.
+      - eexists; split; reflexivity. }
+    destruct E as (i & E & Ei). rewrite <- Ei.
+    assert (Hnr' : no_return (c' :: h)) by (inversion Hnr; auto).
+    rewrite run_cons. rewrite E. cbn [Model.s_body sbody]. cbn [Model.ar_run].
+    change (run_tree (fun _ : cmd V => CErr tyerr) (bstep (sbody s) i)) with (run_tree s_reenter (bstep (sbody s) i)).
+    destruct (run_tree s_reenter (bstep (sbody s) i)) as [l lf] eqn:Et.
+    pose proof (Hsf _ _ _ (run_tree_leaf_of _ _ _ _ Et)) as Hl.
+    destruct lf as [v w b'|src w b'|v b'|e b']; try contradiction.
+    + (* await: the next settlement resumes the body *)
+      cbn [Model.s_leaf Model.spre]. rewrite app_nil_r.
+      specialize (IH (mkS SSuspendedYield None b') c' Hnr' eq_refl (or_introl eq_refl)).
+      cbn [sstate sbody] in IH.
+      destruct (run (s_call (S n)) (mkS SSuspendedYield None b') (c' :: h)) as [os stf] eqn:Er.
+      cbn [outs fst until_done]. f_equal.
+      unfold outs in IH. cbn [fst] in IH. rewrite <- IH.
+      destruct c'; try reflexivity. inversion Hnr'; subst. contradiction.
+    + (* completed: the runner resolves; later settlements are never looked at *)
+      cbn [Model.s_leaf Model.spre]. rewrite app_nil_r.
+      destruct (run (s_call (S n)) (mkS SCompleted None b') (c' :: h)) as [os stf]. reflexivity.
+    + cbn [Model.s_leaf Model.spre]. rewrite app_nil_r.
+      destruct (run (s_call (S n)) (mkS SCompleted None b') (c' :: h)) as [os stf]. reflexivity.
+Qed.
+
+Theorem async_is_generator_plus_promises : star_free -> forall n b h,
+  no_return h ->
+  ar_run b BStart h = until_done (outs (run (s_call (S n)) (@sinit B It b) (RNext undef :: h))).
+Proof.
+  intros Hsf n b h Hnr.
+  apply (ar_sim Hsf n h (@sinit B It b) (RNext undef)).
+  - constructor; auto.
+  - reflexivity.
+  - right. split; [reflexivity | eauto].
+Qed.
+
 End GenProofs.
 
 (* non-vacuity of genobj_refines_spec: a body that yields, delegates to an iterator without throw, and is driven
